@@ -1588,6 +1588,21 @@ func (c *Ctx) seqWrappers() {
 			if n == 0 {
 				problems = append(problems, "the worker call is unreachable")
 			}
+			// the wrapper itself stores nothing into the stack: header and slots are written by the
+			// worker only (a fast path in the wrapper would bypass the worker's filters: capacity,
+			// no-nesting, push policy, lock)
+			if fe := c.eff.fns[fn]; fe != nil {
+				for _, site := range fe.sites {
+					if !site.Direct {
+						continue
+					}
+					for _, w := range site.Writes {
+						if w.Loc == "HDR" || w.Loc == "SLOT" || strings.HasPrefix(w.Loc, "APPEND") {
+							problems = append(problems, c.p.instrPos(site.Instr)+": the wrapper writes the stack itself ("+w.Loc+") instead of leaving it to "+pr[1])
+						}
+					}
+				}
+			}
 			// results: on paths through the call, result k is the worker's result k
 			for _, ret := range c.returnsOf(fn) {
 				for _, s := range fa.statesBefore(ret) {
